@@ -175,12 +175,13 @@ WATCHED = ("_buffer", "_closed", "_event")
 _WATCHED_CLASSES = {}
 
 
-def watch(obj, ex, names, lock):
-    """Route every read / write of the shared attributes `names` of `obj` through ex.access(name, lock)
-    (lock = the instrumented lock that has to be held), by giving the instance a subclass with attribute
-    hooks (the class under test itself is not modified)."""
+def watch(obj, ex, names, lock, write_all=False):
+    """Route every read / write of the shared attributes `names` of `obj` (and, with write_all, every
+    attribute WRITE whatever the name) through ex.access(name, lock) (lock = the instrumented lock that
+    has to be held), by giving the instance a subclass with attribute hooks (the class under test itself
+    is not modified)."""
     base = type(obj)
-    cls = _WATCHED_CLASSES.get((base, names))
+    cls = _WATCHED_CLASSES.get((base, names, write_all))
     if cls is None:
         class Watched(base):
             def __getattribute__(self, name):
@@ -190,15 +191,60 @@ def watch(obj, ex, names, lock):
                 return base.__getattribute__(self, name)
 
             def __setattr__(self, name, value):
-                if name in names:
+                if write_all or name in names:
                     oga = object.__getattribute__
                     oga(self, "_c26_ex").access(name, oga(self, "_c26_lock"))
                 base.__setattr__(self, name, value)
 
-        cls = _WATCHED_CLASSES[(base, names)] = Watched
+        cls = _WATCHED_CLASSES[(base, names, write_all)] = Watched
     object.__setattr__(obj, "_c26_ex", ex)
     object.__setattr__(obj, "_c26_lock", lock)
     obj.__class__ = cls
+
+
+class _Observe(Exception):
+    """Raised by the pipe factory when the harness itself (not the code under test) would allocate."""
+
+
+_CHAN_EX = [None]
+
+
+def instrument_pipe(ex, pipe, name):
+    lk = FakeLock(ex, name)
+    pipe._lock = lk
+    pipe._cv = FakeCV(ex, lk)
+    watch(pipe, ex, WATCHED, lk)
+    ex.pipes.append(pipe)
+    return pipe
+
+
+class pipe_factory:
+    """While installed, every BufferedPipe that paramiko.channel constructs -- in Channel.__init__ or later,
+    lazily, inside an operation -- is a real BufferedPipe instrumented for the running execution."""
+
+    def __enter__(self):
+        import paramiko.channel as pc
+        import paramiko.buffered_pipe as bp
+        self.pc = pc
+        self.saved = getattr(pc, "BufferedPipe", _ABSENT)
+        real = bp.BufferedPipe
+
+        def make(*a, **k):
+            ex = _CHAN_EX[0]
+            if ex is None:
+                return real(*a, **k)
+            if ex.observing:
+                raise _Observe()
+            return instrument_pipe(ex, real(*a, **k), "pipe%d._lock" % len(ex.pipes))
+
+        if self.saved is not _ABSENT:
+            pc.BufferedPipe = make
+        return self
+
+    def __exit__(self, *a):
+        _CHAN_EX[0] = None
+        if self.saved is not _ABSENT:
+            self.pc.BufferedPipe = self.saved
 
 
 class Pool:
@@ -277,6 +323,8 @@ class Exec:
         self.sections = {}      # tid -> {lock: acquisitions made by the running operation}
         self.unlocked = []      # (attribute, action) of unlocked accesses not yet reported
         self.unmodelled = False
+        self.observing = False  # the harness itself is looking at the objects: hooks stay quiet
+        self.pipes = []
         self.setup()
         self.orc = self.make_oracle(ctx, programs)
         self.sched, self.actions, self.trace, self.siblings = [], [], [], []
@@ -310,7 +358,7 @@ class Exec:
     def access(self, name, lock):
         """Called (from the running worker) before every read / write of a shared attribute that is
         to be touched only with `lock` held."""
-        if self.stop:
+        if self.stop or self.observing:
             return
         i = self.cur
         if lock.owner == i:
@@ -507,6 +555,9 @@ class ChanExec(Exec):
             def _sanitize_packet_size(self, n):
                 return n
 
+        # pipes the Channel constructs (now or lazily, later) are instrumented by the installed factory;
+        # the harness never touches ch.in_stderr_buffer itself before the threads do
+        _CHAN_EX[0] = self
         ch = Channel(1)
         ch._set_transport(T())
         ch._set_window(1 << 30, 1 << 15)
@@ -515,14 +566,13 @@ class ChanExec(Exec):
         self.chlock = FakeLock(self, "channel.lock")
         ch.lock = self.chlock
         ch.out_buffer_cv = FakeCV(self, self.chlock)
-        for pipe, name in ((ch.in_buffer, "in_buffer._lock"), (ch.in_stderr_buffer, "in_stderr_buffer._lock")):
-            lk = FakeLock(self, name)
-            pipe._lock = lk
-            pipe._cv = FakeCV(self, lk)
-            watch(pipe, self, WATCHED, lk)
-        watch(ch, self, ("combine_stderr",), self.chlock)
+        for name, v in sorted(vars(ch).items()):
+            if isinstance(v, self.bp.BufferedPipe) and not any(v is q for q in self.pipes):
+                instrument_pipe(self, v, name + "._lock")      # factory not installed / other import style
+        # combine_stderr may only be touched, and any attribute only be WRITTEN, with the channel lock held
+        watch(ch, self, ("combine_stderr",), self.chlock, write_all=True)
         self.ch = ch
-        self.pipe = ch.in_buffer
+        self.pipe = vars(ch)["in_buffer"]
         self.lock = self.chlock
 
     def make_oracle(self, ctx, programs):
@@ -562,8 +612,20 @@ class ChanExec(Exec):
             return ("timeout",)
 
     def buffers(self):
+        """What recv() / recv_stderr() could still deliver: the content of the pipes reachable through the
+        public attributes right now (looked at without disturbing the object: no hooks, no allocation)."""
         ch = self.ch
-        return vars(ch.in_buffer)["_buffer"].tobytes(), vars(ch.in_stderr_buffer)["_buffer"].tobytes()
+        self.observing = True
+        try:
+            out = []
+            for attr in ("in_buffer", "in_stderr_buffer"):
+                try:
+                    out.append(vars(getattr(ch, attr))["_buffer"].tobytes())
+                except _Observe:
+                    out.append(b"")          # not allocated yet
+            return tuple(out)
+        finally:
+            self.observing = False
 
     def final(self):
         out, err = self.buffers()
@@ -629,8 +691,9 @@ class ChanOracle:
                 self.err_got += res[1]
         for name, act in ex.unlocked:
             self.fail("unlocked-state-access",
-                      "%s touches self.%s without holding the lock that protects it (the flag test and the store "
-                      "are not one step with respect to set_combine_stderr)" % (act[0], name))
+                      "%s touches (for combine_stderr) or writes self.%s without holding the channel lock: the test "
+                      "and the store are not one step with respect to the other receive-path operations"
+                      % (act[0], name))
         del ex.unlocked[:]
         for p in ex.problems:
             self.fail("lock-discipline", p)
@@ -1022,6 +1085,8 @@ def read_grid(ctx, work):
 
 
 CHANNEL_SETS = [
+    # the very first uses of the stderr buffer overlap: reader, feeder and set_combine_stderr on a fresh channel
+    [[("recv_err", 10), ("recv_err", 10)], [("err", b"A"), ("err", b"B")], [("out", b"a"), ("combine", True)]],
     # stderr chunks racing with the switch to combined mode, while stdout data is received
     [[("err", b"A"), ("err", b"B"), ("err", b"C")], [("combine", True)], [("out", b"a"), ("recv", 10)]],
     # switching on, off and on again; both recv variants
@@ -1057,11 +1122,13 @@ def channel_receive_path(ctx, rng):
     Channel (oracle only: the Coq model of C26 is the pipe; C21 models the combine logic)."""
     sets = CHANNEL_SETS + [gen_channel_programs(rng) for _ in range(12 if ctx.thorough else 4)]
     total = 0
-    for k, programs in enumerate(sets):
-        leaves, _ = explore(ctx, programs, 6000 if ctx.thorough else 1800, cls=ChanExec)
-        total += len(leaves)
-        for r in leaves:
-            ctx.count(("chan", programs, r["schedule"]), nontrivial=len(r["actions"]) > 2, kind="channel-recv-path")
+    with pipe_factory():
+        for k, programs in enumerate(sets):
+            leaves, _ = explore(ctx, programs, 6000 if ctx.thorough else 1800, cls=ChanExec)
+            total += len(leaves)
+            for r in leaves:
+                ctx.count(("chan", programs, r["schedule"]), nontrivial=len(r["actions"]) > 2,
+                          kind="channel-recv-path")
     ctx.notes.append("channel receive path: %d program sets, %d schedules executed on a real Channel" % (len(sets), total))
 
 
@@ -1164,7 +1231,8 @@ def replay(ctx, rep):
     cls = ChanExec if case.get("rig") == "channel" else Exec
     saved = _pin_clock(bp)
     try:
-        r = run_schedule(ctx, programs, sched, cls=cls)
+        with pipe_factory():
+            r = run_schedule(ctx, programs, sched, cls=cls)
         ctx.count((programs, sched), kind="replay")
         ctx.log("replay: %s; steps %r" % ("completed" if r["ok"] else r.get("why"), r["actions"]))
         if r["ok"] and r["modelled"] and cls is Exec:
